@@ -1,7 +1,58 @@
 import CB.Driver.Util
+import CB.Driver.C13
+import CB.Model.IntDiv
 namespace CB
 
-/-- operations of property C14 (op names start with `c14.`) -/
-def dispatchC14 : Dispatch := fun _ _ => none
+/-! Driver of property C14.  Every line is printed as `L1 ;; L0`: `L1` = the model of
+    CB/Model/IntDiv.lean (the code as written, including the floor-remainder sign it computes),
+    `L0` = `Int.tdiv/tmod` resp. `Int.fdiv/fmod` on `toInt` (what the property demands). -/
+
+open CB.SInt CB.SInt.Drv CB.IntDiv
+
+namespace IntDiv.Drv
+/-- a signed remainder that must be stored in an `m`-limb `Int` -/
+def encFit (m : Nat) (x : Int) : String := if inRange m x then encI m x else "unrepresentable"
+end IntDiv.Drv
+open IntDiv.Drv
+
+def dispatchC14 : Dispatch := fun op args =>
+  let two (n a m b : String) (f : List Nat → List Nat → Option String) : Option String :=
+    match lim n a, lim m b with
+    | some x, some y => f x y
+    | _, _ => badArgs
+  -- signed divisor, truncating
+  let divRem (x y : List Nat) : Option String :=
+    if val y = 0 then both "zero-divisor none" "zero-divisor none" else
+    let r := iCheckedDivRem x y
+    both s!"{optTok r.1} {limbsHex r.2}"
+         s!"{encOpt x.length (Int.tdiv (toInt x) (toInt y))} {encFit y.length (Int.tmod (toInt x) (toInt y))}"
+  -- signed divisor, flooring
+  let divRemFloor (x y : List Nat) : Option String :=
+    if val y = 0 then both "zero-divisor none" "zero-divisor none" else
+    let r := iCheckedDivRemFloor x y
+    both s!"{optTok r.1} {limbsHex r.2}"
+         s!"{encOpt x.length (Int.fdiv (toInt x) (toInt y))} {encFit y.length (Int.fmod (toInt x) (toInt y))}"
+  -- unsigned divisor, truncating
+  let divRemUint (x y : List Nat) : Option String :=
+    if val y = 0 then both "zero-divisor" "zero-divisor" else
+    let r := iDivRemUint x y
+    both s!"{limbsHex r.1} {limbsHex r.2}"
+         s!"{encFit x.length (Int.tdiv (toInt x) (val y : Int))} {encFit y.length (Int.tmod (toInt x) (val y : Int))}"
+  -- unsigned divisor, flooring; the remainder is a `Uint`
+  let divRemFloorUint (x y : List Nat) : Option String :=
+    if val y = 0 then both "zero-divisor" "zero-divisor" else
+    let r := iDivRemFloorUint x y
+    both s!"{limbsHex r.1} {limbsHex r.2}"
+         s!"{encFit x.length (Int.fdiv (toInt x) (val y : Int))} {natToHex (Int.fmod (toInt x) (val y : Int)).toNat}"
+  match op, args with
+  | "c14.div_rem", [n, a, b] => two n a n b divRem
+  | "c14.div_rem_vartime", [n, a, m, b] => two n a m b divRem
+  | "c14.div_rem_floor", [n, a, b] => two n a n b divRemFloor
+  | "c14.div_rem_floor_vartime", [n, a, m, b] => two n a m b divRemFloor
+  | "c14.div_rem_uint", [n, a, b] => two n a n b divRemUint
+  | "c14.div_rem_uint_vartime", [n, a, m, b] => two n a m b divRemUint
+  | "c14.div_rem_floor_uint", [n, a, b] => two n a n b divRemFloorUint
+  | "c14.div_rem_floor_uint_vartime", [n, a, m, b] => two n a m b divRemFloorUint
+  | _, _ => none
 
 end CB
